@@ -58,6 +58,19 @@ class _FakeStd:
 def purge():
     for name in [n for n in sys.modules if n == "term_image" or n.startswith("term_image.")]:
         del sys.modules[name]
+    # urwid keeps every class that declares signals in a process-global registry: drop the
+    # entries of earlier generations of the package (and of harness subclasses of them),
+    # otherwise each fresh import stays alive for the life of the worker
+    sig = sys.modules.get("urwid.signals")
+    reg = getattr(getattr(sig, "_signals", None), "_supported", None)
+    if isinstance(reg, dict):
+        for cls in list(reg):
+            try:
+                mro_mods = {getattr(c, "__module__", "") for c in cls.__mro__}
+            except Exception:
+                continue
+            if any(m == "term_image" or m.startswith("term_image.") for m in mro_mods):
+                del reg[cls]
 
 
 class Boot:
@@ -126,6 +139,13 @@ def fresh_import(kernel=None, with_widget=False, sim_locks=True):
     finally:
         threading.RLock = _real["RLock"]
         sys.__stdout__ = old_stdout
+    # image/common.py registers an atexit handler at every import; it would keep every
+    # generation of the package alive for the life of the worker (the scratch TMPDIR is
+    # removed by the runner, and World.__exit__ removes the library's temp dir)
+    common = sys.modules.get("term_image.image.common")
+    if common is not None and hasattr(common, "_cleanup_temp_dir"):
+        import atexit
+        atexit.unregister(common._cleanup_temp_dir)
     b = Boot()
     b.term_image = sys.modules["term_image"]
     b.utils = utils
@@ -236,6 +256,13 @@ def reset_module_state(boot):
         fn._invalidate_cache()
     ti._cell_ratio = 0.5
     ti.AutoCellRatio.is_supported = None
+    # the RenderArgs intern table keeps every render class ever used; harness classes of
+    # earlier worlds would pile up in a reused import
+    rt = sys.modules.get("term_image.renderable._types")
+    if rt is not None:
+        table = rt.RenderArgs._interned
+        for cls in [c for c in table if not str(getattr(c, "__module__", "")).startswith("term_image")]:
+            del table[cls]
     img = sys.modules.get("term_image.image")
     if img is not None:
         for cls in (img.KittyImage, img.ITerm2Image, img.BlockImage):
